@@ -1,7 +1,7 @@
 (* Props/C07.v — property C07: theorems only; each closed by [exact] of a lemma proved elsewhere, followed by
    Print Assumptions. The statements are about every trace admitted by the protocol model (Sim/Proto.v,
    rules with constants regenerated from /repo), at every position of the trace. *)
-From LE Require Import Base Ev World Mon Mon2 Proto Consts GenGuards Config ConfigSpec GenConfig SimBasics SimOwn SimCallbacks SimTheorems GuardFacts Timing Witness Env EnvT SimRefresh SimLease SimLeaseT SimLeaseC SimStable Witness2.
+From LE Require Import Base Ev World Mon Mon2 Proto Consts GenGuards Config ConfigSpec GenConfig SimBasics SimOwn SimCallbacks SimTheorems GuardFacts Timing Witness Env EnvT SimRefresh SimLease SimWatch SimLeaseT SimLeaseC SimStable Witness2.
 Open Scope Z_scope.
 
 Theorem C07_lease_never_lapses_under_fast_store :
@@ -46,3 +46,19 @@ Theorem C07_partial_record_stays_with_the_leader :
     ~ In 201 (mon_C02 (bapply (brun pre) te) te) /\ ~ In 202 (mon_C02 (bapply (brun pre) te) te).
 Proof. exact C02_mutual_exclusion_fast_store_full. Qed.
 Print Assumptions C07_partial_record_stays_with_the_leader.
+
+(* a second cause of demotion excluded for every trace: in the lease environment (Env.env_admits: nobody else writes the
+   bucket, no takeover configured, no expiry or Delete under a holder - no timing assumption) the watcher path ("preempted")
+   never gives up a claim. That path acts only on a readable version of the record that names another instance and is newer
+   than the write the running term rests on (rule 2082, validated on every real trace), and while an instance holds a claim
+   every newer readable version of its record is its own (Proofs/SimWatch.v, from the lease invariant applied to the state
+   after each write). Late, duplicated or reordered notifications therefore never disturb the leader, whatever their delay. *)
+Theorem C07_partial_never_demoted_by_the_watcher :
+  forall tr, admits base0 tr = true -> env_admits base0 tr = true ->
+  forall pre te post, tr = pre ++ te :: post -> watch_demotion (brun pre) te = false.
+Proof. exact C07_never_demoted_by_the_watcher. Qed.
+Print Assumptions C07_partial_never_demoted_by_the_watcher.
+
+Theorem C07_partial_watcher_nonvacuous : admits base0 lease_witness = true /\ env_admits base0 lease_witness = true.
+Proof. exact (conj lease_witness_admitted lease_witness_env). Qed.
+Print Assumptions C07_partial_watcher_nonvacuous.
